@@ -388,6 +388,10 @@ func init() {
 			ln := x.c64(uint64(n))
 			return Slice{Arr: arr, Off: x.c64(0), Len: ln, Cap: ln}
 		},
+		ModulePath + "/protocol/transport/tcp.tcpTimeStamp": func(x *X, fn *ssa.Function, a []Value) Value {
+			// millisecond clock: an arbitrary 32-bit reading plus the endpoint's offset
+			return x.B.Add(x.input(x.inputName("tsclock"), 32), a[0].(*T))
+		},
 		"(*" + ModulePath + "/protocol.StatCounter).Increment":   nop,
 		"(*" + ModulePath + "/protocol.StatCounter).IncrementBy": nop,
 	}
